@@ -179,6 +179,8 @@ func checkC12(c *Ctx) {
 	// ---- 5. free-running stress, recorded through the hooks, validated by TLC against BWSTrace
 	if stage("stress") {
 		bwsStress(c)
+		bwsContention(c)
+		bwsTickUnderContention(c)
 	}
 
 	// ---- 6. crash points: SIGKILL a child writing through BWS to a file
